@@ -399,6 +399,11 @@ func pickKey(r *rand.Rand, n int) string {
 		}
 		return string(b)
 	}
+	if r.Intn(60) == 0 {
+		// a long key (beyond 64 / 128 / 256 bytes), few distinct ones so that they collide and get overwritten
+		n := []int{65, 70, 129, 260}[r.Intn(4)]
+		return strings.Repeat("L", n-1) + string(rune('a'+r.Intn(3)))
+	}
 	return userKeys[r.Intn(n)]
 }
 
